@@ -259,5 +259,159 @@ theorem set_spec {n : Node α} (key : Key) (value : α) (hi : n.Inv) (hs : Sorte
         · simp [keys_append, hkr, hnl]
         · omega
 
+/-! ### Remove -/
+
+/-- the list represented by a possibly-nil node -/
+def optList : Option (Node α) → List (Key × α)
+  | none => []
+  | some n => n.toList
+
+theorem minKey_of_toList {a b : Node α} {rest : List (Key × α)}
+    (h : a.toList = b.toList ++ rest) : a.minKey = b.minKey := by
+  obtain ⟨v, r1, h1⟩ := toList_exists_head a
+  obtain ⟨w, r2, h2⟩ := toList_exists_head b
+  rw [h1, h2] at h
+  simp only [List.cons_append, List.cons.injEq, Prod.mk.injEq] at h
+  exact h.1.1
+
+theorem remove_spec {n : Node α} (key : Key) (hi : n.Inv) (hs : Sorted n.toList) :
+    ∃ nn nkey val rem, n.remove key = .ok (nn, nkey, val, rem) ∧
+      val = lookup key n.toList ∧ (rem = true ↔ key ∈ keys n.toList) ∧
+      (rem = false → nn = some n ∧ nkey = []) ∧
+      (rem = true →
+        optList nn = erase key n.toList ∧
+        match nn with
+        | none => n.height = 0 ∧ nkey = []
+        | some n' => n'.Inv ∧ (n'.height = n.height ∨ n'.height + 1 = n.height) ∧
+            nkey = (if key = n.minKey then n'.minKey else [])) := by
+  induction n with
+  | leaf nk nv =>
+    simp only [remove]
+    split
+    · rename_i heq; subst heq
+      refine ⟨_, _, _, _, rfl, by simp [lookup], by simp [keys], by simp, ?_⟩
+      intro _; simp [optList, erase]
+    · rename_i hne
+      refine ⟨_, _, _, _, rfl, by simp [lookup, hne], by simp [keys, hne], by simp, by simp⟩
+  | inner nk h s l r ihl ihr =>
+    obtain ⟨hsl, hsr, hbl, hbr, hmem⟩ := bounds hi hs
+    have hi' := hi
+    rw [inv_inner] at hi'
+    obtain ⟨hil, hir, hk, hh, hsz, hb1, hb2⟩ := hi'
+    have hl0 := height_nonneg hil
+    have hr0 := height_nonneg hir
+    simp only [toList_inner, height_inner, minKey_inner] at *
+    simp only [remove]
+    split
+    · -- key < nk : left subtree
+      rename_i hlt
+      obtain ⟨nl, newKey, val, rem, hrm, hval, hrem, hno, hyes⟩ := ihl hil hsl
+      have hnr : key ∉ keys r.toList := fun hy => by have := hbr key hy; grind
+      simp only [hrm]
+      cases rem with
+      | false =>
+        have hkl : key ∉ keys l.toList := fun hm => by have := hrem.2 hm; simp at this
+        refine ⟨_, _, _, _, rfl, ?_, ?_, by simp, by simp⟩
+        · rw [lookup_append_left hnr]; exact hval
+        · simp [keys_append, hkl, hnr]
+      | true =>
+        have hkl : key ∈ keys l.toList := hrem.1 rfl
+        obtain ⟨herase, hmatch⟩ := hyes rfl
+        simp only [Bool.not_true, Bool.false_eq_true, if_false]
+        cases nl with
+        | none =>
+          simp only [optList] at herase
+          obtain ⟨hlh, _⟩ := hmatch
+          have hmin : key = l.minKey := by
+            have hm := minKey_mem l
+            refine Classical.byContradiction fun hne => ?_
+            have : l.minKey ∈ keys (erase key l.toList) := (keys_erase key l.toList _).2 ⟨fun h => hne h.symm, hm⟩
+            rw [← herase] at this
+            simp [keys] at this
+          refine ⟨_, _, _, _, rfl, ?_, ?_, by simp, ?_⟩
+          · rw [lookup_append_left hnr]; exact hval
+          · simp [keys_append, hkl]
+          · intro _
+            refine ⟨?_, hir, ?_, ?_⟩
+            · simp [optList, erase_append, ← herase, erase_of_not_mem hnr]
+            · omega
+            · simp [hmin, hk]
+        | some nl =>
+          simp only [optList] at herase
+          obtain ⟨hinl, hhl, hnk⟩ := hmatch
+          obtain ⟨n', hbal, hin', htn', hh1, hh2⟩ :=
+            balance_spec (k := nk) (h := h) (s := s) hinl hir hk (by omega) (by omega)
+          simp only [hbal]
+          refine ⟨_, _, _, _, rfl, ?_, ?_, by simp, ?_⟩
+          · rw [lookup_append_left hnr]; exact hval
+          · simp [keys_append, hkl]
+          · intro _
+            refine ⟨?_, hin', ?_, ?_⟩
+            · simp [optList, htn', erase_append, herase, erase_of_not_mem hnr]
+            · omega
+            · rw [minKey_of_toList htn']; exact hnk
+    · -- key ≥ nk : right subtree
+      rename_i hnlt
+      obtain ⟨nr, newKey, val, rem, hrm, hval, hrem, hno, hyes⟩ := ihr hir hsr
+      have hnl : key ∉ keys l.toList := fun hx => by have := hbl key hx; grind
+      have hnmin : key ≠ l.minKey := fun h => hnl (h ▸ minKey_mem l)
+      simp only [hrm]
+      cases rem with
+      | false =>
+        have hkr : key ∉ keys r.toList := fun hm => by have := hrem.2 hm; simp at this
+        refine ⟨_, _, _, _, rfl, ?_, ?_, by simp, by simp⟩
+        · rw [lookup_append_right hnl]; exact hval
+        · simp [keys_append, hkr, hnl]
+      | true =>
+        have hkr : key ∈ keys r.toList := hrem.1 rfl
+        obtain ⟨herase, hmatch⟩ := hyes rfl
+        simp only [Bool.not_true, Bool.false_eq_true, if_false]
+        cases nr with
+        | none =>
+          simp only [optList] at herase
+          obtain ⟨hrh, _⟩ := hmatch
+          refine ⟨_, _, _, _, rfl, ?_, ?_, by simp, ?_⟩
+          · rw [lookup_append_right hnl]; exact hval
+          · simp [keys_append, hkr]
+          · intro _
+            refine ⟨?_, hil, ?_, ?_⟩
+            · simp [optList, erase_append, ← herase, erase_of_not_mem hnl]
+            · omega
+            · simp [hnmin]
+        | some nr =>
+          simp only [optList] at herase
+          obtain ⟨hinr, hhr, hnk⟩ := hmatch
+          -- the refreshed routing key is the smallest key of the new right subtree
+          have hnk' : (if newKey ≠ [] then newKey else nk) = nr.minKey := by
+            by_cases hkm : key = r.minKey
+            · simp only [hkm, if_true] at hnk
+              have hm := minKey_mem nr
+              rw [herase] at hm
+              have hm' := (keys_erase key r.toList _).1 hm
+              have hle := minKey_le hsr _ hm'.2
+              have hlt : key < nr.minKey := by grind
+              have hne : nr.minKey ≠ [] := by
+                intro h0; rw [h0] at hlt; exact List.not_lt_nil _ hlt
+              simp [hnk, hne]
+            · simp only [hkm, if_false] at hnk
+              obtain ⟨v, rest, hr0⟩ := toList_exists_head r
+              obtain ⟨v', rest', hr1⟩ := toList_exists_head nr
+              rw [hr0, hr1] at herase
+              have : r.minKey ≠ key := fun h => hkm h.symm
+              simp only [erase, List.filter_cons, ne_eq, this, not_false_eq_true, decide_true, if_true,
+                List.cons.injEq, Prod.mk.injEq] at herase
+              simp [hnk, hk, herase.1.1]
+          obtain ⟨n', hbal, hin', htn', hh1, hh2⟩ :=
+            balance_spec (k := if newKey ≠ [] then newKey else nk) (h := h) (s := s) hil hinr hnk' (by omega) (by omega)
+          simp only [hbal]
+          refine ⟨_, _, _, _, rfl, ?_, ?_, by simp, ?_⟩
+          · rw [lookup_append_right hnl]; exact hval
+          · simp [keys_append, hkr]
+          · intro _
+            refine ⟨?_, hin', ?_, ?_⟩
+            · simp [optList, htn', erase_append, herase, erase_of_not_mem hnl]
+            · omega
+            · simp [hnmin]
+
 end Node
 end GnoVerif.C50
